@@ -54,6 +54,8 @@ def _mk(W, lt, op, tag, zero_tilt=False, lam=None):
 
 def cfg_step(tier, seed):
     out = [{'w': w, 'op': 'ptype:' + p} for w in PT[:3] for p in PT] + [{'w': w, 'op': c} for w in PT[:3] for c in CLASSES + ('Tilt(ptype=none-object)',)]
+    out += [{'w': w, 'op': 'ptype:' + p, 'variant': v} for w in PT[:3] for p in PT for v in ('runtime-name', 'data-less')]
+    out += [{'w': w, 'op': c, 'variant': 'data-less'} for w in PT[:3] for c in ('Pupil', 'Image')]
     return out, len(out), True
 
 
@@ -69,7 +71,18 @@ def run_step(W, cfg):
     lt = W.lentil
     table, classes = ptable.mul_table(), ptable.class_ptypes()
     w = _wave(W, lt, cfg['w'])
-    if cfg['op'] == 'Tilt(ptype=none-object)':
+    variant = cfg.get('variant')
+    if variant == 'runtime-name':
+        # the type names are built at run time (not the interned literals), as after unpickling or reading a configuration
+        name = ''.join(list(cfg['op'][6:]))
+        w = lt.Wavefront(W.real('lam', pos=True), pixelscale=(W.real('pr', pos=True), W.real('pc', pos=True)), focal_length=W.real('f', pos=True),
+                         ptype=''.join(list(cfg['w'])))
+        plane = lt.Plane(amplitude=W.reals('a0', (2, 2), nz=True), ptype=name)
+        ptype = cfg['op'][6:]
+    elif variant == 'data-less':
+        plane = {'Pupil': lambda: lt.Pupil(focal_length=W.real('fl0', pos=True)), 'Image': lambda: lt.Image()}.get(cfg['op'], lambda: lt.Plane(ptype=cfg['op'][6:]))()
+        ptype = _expected_plane_type(cfg['op'], classes)
+    elif cfg['op'] == 'Tilt(ptype=none-object)':
         plane = lt.Tilt(x=W.real('tx0'), y=W.real('ty0'), ptype=lt.none)
         ptype = 'none'
     else:
